@@ -547,6 +547,12 @@ func (d *Deserializer) Skip(skip int, errProducer ErrProducer) *Deserializer {
 	if d.err != nil {
 		return d
 	}
+	// the amount often stems from untrusted input (e.g. int(uint64)): a negative value must not move the offset backwards
+	if skip < 0 {
+		d.err = errProducer(ierrors.Wrapf(ErrDeserializationLengthInvalid, "can't skip a negative amount of bytes (%d)", skip))
+
+		return d
+	}
 	if len(d.src[d.offset:]) < skip {
 		d.err = errProducer(ErrDeserializationNotEnoughData)
 
@@ -718,6 +724,13 @@ func (d *Deserializer) ReadNum(dest any, errProducer ErrProducer) *Deserializer 
 // Use this function only to read fixed size slices/arrays, otherwise use ReadVariableByteSlice instead.
 func (d *Deserializer) ReadBytes(slice *[]byte, numBytes int, errProducer ErrProducer) *Deserializer {
 	if d.err != nil {
+		return d
+	}
+
+	// the length often stems from untrusted input (e.g. int(uint64)): a negative value must not reach make
+	if numBytes < 0 {
+		d.err = errProducer(ierrors.Wrapf(ErrDeserializationLengthInvalid, "can't read a negative amount of bytes (%d)", numBytes))
+
 		return d
 	}
 
